@@ -7,7 +7,9 @@ Property theorems only (helper lemmas live in `Lemmas/Runtime.lean`). The model 
 `context_target` in the code's order; exit codes and supported API from `Gen`); the specification is the decision table
 `Spec/RuntimeTable.lean`, whose notions `gateOpen`, `detectError`, `buildError`, `providedSbom`, `expected` are written from
 the property text. Every theorem holds for all invocations: any argument count, any API version, any payload types
-`P L S D`, any lists of SBOMs (with repeated formats), any pre-existing state of the output paths.
+`P L S D`, any lists of SBOMs (with repeated formats), any pre-existing state of the output paths, and any environment —
+`Invocation.vars` carries the *value* of each `CNB_*` variable (unset / any text / bytes that are not Unicode), so "for all
+invocations" includes every choice of CNB_TARGET_OS, CNB_TARGET_ARCH, … values.
 -/
 namespace CnbVerif.C05
 open CnbVerif.Runtime CnbVerif.Runtime.Spec
@@ -23,31 +25,31 @@ written with exactly the buildpack's plan, detect ran, `on_error` not called. -/
 theorem detect_pass_with_plan (i : Invocation P L S D) (p : P) (hg : gateOpen i = true) (hexe : i.exe = .detect)
     (hne : detectError i = false) (hb : i.dbeh = .passPlan p) :
     (runtime i).exit = 0 ∧ (runtime i).plan = .written p ∧ (runtime i).detectRan = true ∧ (runtime i).onError = 0 := by
-  obtain ⟨ok, hdesc, hbp, hos, harch, hdn, hdv, hn⟩ := open_detect i hg hexe
+  obtain ⟨ok, hdesc, ⟨rbp, hbp⟩, hct, hn⟩ := open_detect i hg hexe
   simp [detectError, contextError, hdesc, descValid, hb] at hne
   obtain ⟨⟨⟨hcwd, rfl⟩, hplat⟩, hpre⟩ := hne
   have hw : canWrite i.planPre = true := by rw [canWrite_eq, hpre]; rfl
-  simp [runtime, apiCheck, Gen.supportedApi, detectPhase, descFullOk, contextTarget, finish, hdesc, hbp, hos, harch, hdn, hdv,
+  simp [runtime, apiCheck, Gen.supportedApi, detectPhase, descFullOk, finish, hdesc, hbp, hct,
     hexe, hn, hcwd, hplat, hb, hw, Gen.exit_DETECT_DETECTION_PASSED]
 
 /-- **M1b.** Detection passed without a plan ⇒ exit 0 and the build plan path is untouched. -/
 theorem detect_pass_without_plan (i : Invocation P L S D) (hg : gateOpen i = true) (hexe : i.exe = .detect)
     (hne : detectError i = false) (hb : i.dbeh = .pass) :
     (runtime i).exit = 0 ∧ (runtime i).plan = .untouched ∧ (runtime i).detectRan = true ∧ (runtime i).onError = 0 := by
-  obtain ⟨ok, hdesc, hbp, hos, harch, hdn, hdv, hn⟩ := open_detect i hg hexe
+  obtain ⟨ok, hdesc, ⟨rbp, hbp⟩, hct, hn⟩ := open_detect i hg hexe
   simp [detectError, contextError, hdesc, descValid, hb] at hne
   obtain ⟨⟨hcwd, rfl⟩, hplat⟩ := hne
-  simp [runtime, apiCheck, Gen.supportedApi, detectPhase, descFullOk, contextTarget, finish, hdesc, hbp, hos, harch, hdn, hdv,
+  simp [runtime, apiCheck, Gen.supportedApi, detectPhase, descFullOk, finish, hdesc, hbp, hct,
     hexe, hn, hcwd, hplat, hb, Gen.exit_DETECT_DETECTION_PASSED]
 
 /-- **M1c.** Detection failed ⇒ exit 100 and the build plan path is untouched. -/
 theorem detect_fail (i : Invocation P L S D) (hg : gateOpen i = true) (hexe : i.exe = .detect)
     (hne : detectError i = false) (hb : i.dbeh = .fail) :
     (runtime i).exit = 100 ∧ (runtime i).plan = .untouched ∧ (runtime i).detectRan = true ∧ (runtime i).onError = 0 := by
-  obtain ⟨ok, hdesc, hbp, hos, harch, hdn, hdv, hn⟩ := open_detect i hg hexe
+  obtain ⟨ok, hdesc, ⟨rbp, hbp⟩, hct, hn⟩ := open_detect i hg hexe
   simp [detectError, contextError, hdesc, descValid, hb] at hne
   obtain ⟨⟨hcwd, rfl⟩, hplat⟩ := hne
-  simp [runtime, apiCheck, Gen.supportedApi, detectPhase, descFullOk, contextTarget, finish, hdesc, hbp, hos, harch, hdn, hdv,
+  simp [runtime, apiCheck, Gen.supportedApi, detectPhase, descFullOk, finish, hdesc, hbp, hct,
     hexe, hn, hcwd, hplat, hb, Gen.exit_DETECT_DETECTION_FAILED]
 
 /-- **M1d.** Any error of the detect phase (context assembly, the buildpack's own error, the plan cannot be written) ⇒
@@ -55,10 +57,10 @@ theorem detect_fail (i : Invocation P L S D) (hg : gateOpen i = true) (hexe : i.
 theorem detect_error (i : Invocation P L S D) (hg : gateOpen i = true) (hexe : i.exe = .detect)
     (he : detectError i = true) :
     (runtime i).onError = 1 ∧ (runtime i).exit ≠ 0 ∧ (runtime i).exit ≠ 100 ∧ (runtime i).plan = .untouched := by
-  obtain ⟨ok, hdesc, hbp, hos, harch, hdn, hdv, hn⟩ := open_detect i hg hexe
+  obtain ⟨ok, hdesc, ⟨rbp, hbp⟩, hct, hn⟩ := open_detect i hg hexe
   cases hc : i.cwdOk <;> cases ok <;> cases hp : i.plat <;> cases hb : i.dbeh <;> cases hpp : i.planPre <;>
     simp [detectError, contextError, hdesc, descValid, hb, hc, hp, hpp, blocked] at he <;>
-    simp [runtime, apiCheck, Gen.supportedApi, detectPhase, descFullOk, contextTarget, finish, hdesc, hbp, hos, harch, hdn, hdv,
+    simp [runtime, apiCheck, Gen.supportedApi, detectPhase, descFullOk, finish, hdesc, hbp, hct,
       hexe, hn, hc, hp, hb, hpp, canWrite, Eff.none, Gen.exit_GENERIC_UNSPECIFIED_ERROR]
 
 /-! ## M2 — build -/
@@ -73,13 +75,13 @@ theorem build_ok (i : Invocation P L S D) (r : BuildOk L S D) (hg : gateOpen i =
     (runtime i).launch = expected r.launch ∧ (runtime i).store = expected r.store ∧
     (∀ f, (runtime i).bsbom f = expected (providedSbom f r.bsboms)) ∧
     (∀ f, (runtime i).lsbom f = expected (providedSbom f r.lsboms)) ∧ (runtime i).plan = .untouched := by
-  obtain ⟨ok, hdesc, hbp, hos, harch, hdn, hdv, hn⟩ := open_build i hg hexe
+  obtain ⟨ok, hdesc, ⟨rbp, hbp⟩, hct, hn⟩ := open_build i hg hexe
   simp [buildError, contextError, hdesc, descValid, hb] at hne
   obtain ⟨⟨⟨⟨⟨hcwd, rfl⟩, hplat⟩, hplan⟩, hstore⟩, hwb⟩ := hne
   have hst : ¬ (i.storePre = .malformed ∨ i.storePre = .dir) := by
     cases h : i.storePre <;> simp [h, storeUnreadable] at hstore ⊢
   obtain ⟨h2, _, h4, h5, h6, h7, h8, h9⟩ := buildWrites_free i { buildRan := true } r hwb ⟨rfl, rfl, fun _ => rfl, fun _ => rfl⟩
-  simp [runtime, apiCheck, Gen.supportedApi, buildPhase, descFullOk, contextTarget, finish, hdesc, hbp, hos, harch, hdn, hdv,
+  simp [runtime, apiCheck, Gen.supportedApi, buildPhase, descFullOk, finish, hdesc, hbp, hct,
     hexe, hn, hcwd, hplat, hplan, hst, hb, h2, h4, h5, h6, h7, h8, h9, Gen.exit_GENERIC_SUCCESS]
 
 /-- **M2b.** Any error of the build phase (context assembly incl. buildpack plan and previous store, the buildpack's own
@@ -88,7 +90,7 @@ is not 0. -/
 theorem build_error (i : Invocation P L S D) (hg : gateOpen i = true) (hexe : i.exe = .build)
     (he : buildError i = true) :
     (runtime i).onError = 1 ∧ (runtime i).exit ≠ 0 := by
-  obtain ⟨ok, hdesc, hbp, hos, harch, hdn, hdv, hn⟩ := open_build i hg hexe
+  obtain ⟨ok, hdesc, ⟨rbp, hbp⟩, hct, hn⟩ := open_build i hg hexe
   have hfin : ∀ r : Eff P L S D × Except ErrKind Int, (∃ k, r.2 = .error k) → (finish r).onError = 1 ∧ (finish r).exit ≠ 0 := by
     intro r ⟨k, hk⟩; simp [finish, hk, Gen.exit_GENERIC_UNSPECIFIED_ERROR]
   have hrt : runtime i = finish (buildPhase i) := by
@@ -96,7 +98,7 @@ theorem build_error (i : Invocation P L S D) (hg : gateOpen i = true) (hexe : i.
   rw [hrt]
   apply hfin
   cases hc : i.cwdOk <;> cases ok <;> cases hp : i.plat <;> cases hpl : i.planIn <;> cases hs : i.storePre <;>
-    simp [buildPhase, descFullOk, contextTarget, hdesc, hbp, hos, harch, hdn, hdv, hc, hp, hpl, hs] <;>
+    simp [buildPhase, descFullOk, hdesc, hbp, hct, hc, hp, hpl, hs] <;>
     cases hb : i.bbeh <;> simp [hb] <;>
     simp [buildError, contextError, hdesc, descValid, hb, hc, hp, hpl, hs, storeUnreadable] at he <;>
     (obtain ⟨k, hk, _⟩ := buildWrites_blocked i { buildRan := true } _ he; exact ⟨k, hk⟩)
@@ -105,53 +107,67 @@ theorem build_error (i : Invocation P L S D) (hg : gateOpen i = true) (hexe : i.
 
 /-- **M3.** A buildpack.toml whose API is unsupported, malformed or missing (or that is missing / unreadable), an
 executable name other than `detect` / `build`, a wrong argument count, or a missing mandatory variable: neither detect
-nor build code runs, the exit status is not 0, and no output path is touched. -/
+nor build code runs, the exit status is not 0 (nor 100), and no output path is touched. -/
 theorem gatekeeping (i : Invocation P L S D) (hg : gateOpen i = false) :
     (runtime i).detectRan = false ∧ (runtime i).buildRan = false ∧ (runtime i).exit ≠ 0 ∧
     (runtime i).plan = .untouched ∧ (runtime i).launch = .untouched ∧ (runtime i).store = .untouched ∧
+    (∀ f, (runtime i).bsbom f = .untouched) ∧ (∀ f, (runtime i).lsbom f = .untouched) ∧ (runtime i).exit ≠ 100 := by
+  obtain ⟨h1, h2⟩ := runtime_closed_shape i hg
+  cases hp : phaseEntered i
+  · obtain ⟨c, hc0, hc100, hr⟩ := h1 hp
+    rw [hr]; simp [exitEarly, hc0, hc100]
+  · obtain ⟨k, hr⟩ := h2 hp
+    rw [hr]; simp [finish, Eff.none, Gen.exit_GENERIC_UNSPECIFIED_ERROR]
+
+/-- **M3-env.** *Missing mandatory environment, whatever the rest of the environment holds.* If any one of
+CNB_BUILDPACK_DIR, CNB_TARGET_OS, CNB_TARGET_ARCH, CNB_TARGET_DISTRO_NAME, CNB_TARGET_DISTRO_VERSION is not provided (unset, or
+not Unicode), then — for **every** value of every other variable (`linux`, `windows`, the empty string, anything), every
+executable name, argument count, descriptor, behaviour and pre-existing state — neither detect nor build code runs, the exit
+status is neither 0 nor 100, `on_error` is called at most once, and no output path is touched. The only hypothesis is about
+the missing variable itself. -/
+theorem mandatory_variable_missing (i : Invocation P L S D) (hm : mandatoryPresent i.vars = false) :
+    (runtime i).detectRan = false ∧ (runtime i).buildRan = false ∧ (runtime i).exit ≠ 0 ∧ (runtime i).exit ≠ 100 ∧
+    (runtime i).plan = .untouched ∧ (runtime i).launch = .untouched ∧ (runtime i).store = .untouched ∧
     (∀ f, (runtime i).bsbom f = .untouched) ∧ (∀ f, (runtime i).lsbom f = .untouched) := by
-  have early : ∀ c : Int, c ≠ 0 → (exitEarly c : Outcome P L S D).detectRan = false ∧ (exitEarly c : Outcome P L S D).buildRan = false ∧
-      (exitEarly c : Outcome P L S D).exit ≠ 0 ∧ (exitEarly c : Outcome P L S D).plan = .untouched ∧
-      (exitEarly c : Outcome P L S D).launch = .untouched ∧ (exitEarly c : Outcome P L S D).store = .untouched ∧
-      (∀ f, (exitEarly c : Outcome P L S D).bsbom f = .untouched) ∧ (∀ f, (exitEarly c : Outcome P L S D).lsbom f = .untouched) := by
-    intro c hc; simp [exitEarly, hc]
-  have noRun : ∀ r : Eff P L S D × Except ErrKind Int, r.1 = Eff.none → (∃ k, r.2 = .error k) →
-      (finish r).detectRan = false ∧ (finish r).buildRan = false ∧ (finish r).exit ≠ 0 ∧ (finish r).plan = .untouched ∧
-      (finish r).launch = .untouched ∧ (finish r).store = .untouched ∧
-      (∀ f, (finish r).bsbom f = .untouched) ∧ (∀ f, (finish r).lsbom f = .untouched) := by
-    intro r h1 ⟨k, hk⟩; simp [finish, hk, h1, Eff.none, Gen.exit_GENERIC_UNSPECIFIED_ERROR]
-  unfold runtime
-  cases hapi : apiCheck i.vars i.desc
-  · simpa using early _ (by decide)
-  · -- the API check passed: the descriptor names the supported API and CNB_BUILDPACK_DIR is set
-    have hbp : i.vars.bpDir = true := by
-      cases h : i.vars.bpDir <;> simp [apiCheck, h] at hapi ⊢
-    obtain ⟨ok, hdesc⟩ : ∃ ok, i.desc = .api 0 10 ok := by
-      cases hd : i.desc <;> simp [apiCheck, hbp, hd, Gen.supportedApi] at hapi
-      obtain ⟨rfl, rfl⟩ := hapi; exact ⟨_, rfl⟩
-    simp only [Bool.not_true, Bool.false_eq_true, if_false]
-    cases hexe : i.exe
-    · -- detect
-      by_cases hn : i.nargs = 2
-      · simp only [hn, if_true]
-        have hm : (i.vars.os && i.vars.arch && i.vars.dname && i.vars.dver) = false := by
-          cases h1 : i.vars.os <;> cases h2 : i.vars.arch <;> cases h3 : i.vars.dname <;> cases h4 : i.vars.dver <;>
-            simp [gateOpen, apiSupported, Spec.supportedApi, hdesc, hexe, argsRight, hn, mandatoryPresent, hbp, h1, h2, h3, h4] at hg ⊢
-        obtain ⟨k, hk⟩ := contextTarget_err i.vars hm
-        obtain ⟨h1, h2⟩ := detectPhase_target_err i k hk
-        exact noRun _ h1 h2
-      · simp only [hn, if_false]; exact early _ (by decide)
-    · -- build
-      by_cases hn : i.nargs = 3
-      · simp only [hn, if_true]
-        have hm : (i.vars.os && i.vars.arch && i.vars.dname && i.vars.dver) = false := by
-          cases h1 : i.vars.os <;> cases h2 : i.vars.arch <;> cases h3 : i.vars.dname <;> cases h4 : i.vars.dver <;>
-            simp [gateOpen, apiSupported, Spec.supportedApi, hdesc, hexe, argsRight, hn, mandatoryPresent, hbp, h1, h2, h3, h4] at hg ⊢
-        obtain ⟨k, hk⟩ := contextTarget_err i.vars hm
-        obtain ⟨h1, h2⟩ := buildPhase_target_err i k hk
-        exact noRun _ h1 h2
-      · simp only [hn, if_false]; exact early _ (by decide)
-    · exact early _ (by decide)
+  have hg : gateOpen i = false := by simp [gateOpen, hm]
+  obtain ⟨a, b, c, d, e, f, g, h, k⟩ := gatekeeping i hg
+  exact ⟨a, b, c, k, d, e, f, g, h⟩
+
+/-- **M3-env, the unset case spelled out.** One of the five mandatory variables is unset: the conclusion of
+`mandatory_variable_missing`, with no condition whatsoever on the values of the others. -/
+theorem mandatory_variable_unset (i : Invocation P L S D)
+    (hm : i.vars.bpDir = none ∨ i.vars.os = none ∨ i.vars.arch = none ∨ i.vars.dname = none ∨ i.vars.dver = none) :
+    (runtime i).detectRan = false ∧ (runtime i).buildRan = false ∧ (runtime i).exit ≠ 0 ∧ (runtime i).exit ≠ 100 ∧
+    (runtime i).plan = .untouched ∧ (runtime i).launch = .untouched ∧ (runtime i).store = .untouched ∧
+    (∀ f, (runtime i).bsbom f = .untouched) ∧ (∀ f, (runtime i).lsbom f = .untouched) := by
+  apply mandatory_variable_missing
+  rcases hm with h | h | h | h | h <;> simp [mandatoryPresent, targetPresent, provided, h]
+
+/-- **M3-env, the handler.** With the phase determined (supported API, `detect` / `build` with the right argument count, the
+buildpack directory provided) a target variable that is not provided is an error of that phase: `on_error` is called exactly
+once, the exit status is neither 0 nor 100, detect / build code is not reached and nothing is written — again for every
+value of the variables that *are* set. -/
+theorem target_variable_missing_is_an_error (i : Invocation P L S D) (hp : phaseEntered i = true)
+    (ht : targetPresent i.vars = false) :
+    (runtime i).onError = 1 ∧ (runtime i).exit ≠ 0 ∧ (runtime i).exit ≠ 100 ∧
+    (runtime i).detectRan = false ∧ (runtime i).buildRan = false ∧
+    (runtime i).plan = .untouched ∧ (runtime i).launch = .untouched ∧ (runtime i).store = .untouched ∧
+    (∀ f, (runtime i).bsbom f = .untouched) ∧ (∀ f, (runtime i).lsbom f = .untouched) := by
+  have hg : gateOpen i = false := by simp [gateOpen, mandatoryPresent, ht]
+  obtain ⟨k, hr⟩ := (runtime_closed_shape i hg).2 hp
+  rw [hr]; simp [finish, Eff.none, Gen.exit_GENERIC_UNSPECIFIED_ERROR]
+
+/-- **M3-values.** The outcome depends on the environment only through *which* variables are provided, never through what
+they hold: forgetting every value (`canonVars`: a provided variable becomes the empty text, anything else becomes unset)
+leaves the outcome of every invocation unchanged. In particular no value of CNB_TARGET_OS (or of any other variable) can make
+a missing variable acceptable or a provided one unacceptable. -/
+theorem outcome_independent_of_values (i : Invocation P L S D) :
+    runtime { i with vars := canonVars i.vars } = runtime i := by
+  have hct := contextTarget_canon i.vars
+  have hbw : ∀ e r, buildWrites { i with vars := canonVars i.vars } e r = buildWrites i e r := fun _ _ => rfl
+  unfold runtime apiCheck detectPhase buildPhase
+  simp only [hct, hbw]
+  rcases readBuildpackDir_canon i.vars with ⟨k, h1, h2⟩ | ⟨a, b, h1, h2⟩ <;> simp only [h1, h2]
 
 /-! ## M4 — the error handler -/
 
@@ -196,7 +212,7 @@ theorem plan_written_only_when_passed_with_plan (i : Invocation P L S D) (p : P)
   cases hg : gateOpen i
   · have := (gatekeeping i hg).2.2.2.1
     rw [this] at h; cases h
-  · obtain ⟨ok, hdesc, hbp, hos, harch, hdn, hdv, hex⟩ := gateOpen_cases i hg
+  · obtain ⟨ok, hdesc, hbp, hct, hex⟩ := gateOpen_cases i hg
     rcases hex with ⟨hexe, hn⟩ | ⟨hexe, hn⟩
     · refine ⟨hexe, rfl, ?_⟩
       cases he : detectError i
@@ -249,11 +265,28 @@ theorem runtime_meets_table [DecidableEq P] [DecidableEq L] [DecidableEq S] [Dec
       obtain ⟨a, b, c⟩ := h3 p hp
       simp [a, b, c]
   · cases hg : gateOpen i
-    · obtain ⟨g1, g2, g3, _⟩ := gatekeeping i hg
-      simp [hg] at hc
-      rcases hc with rfl | rfl | rfl <;> simp [g1, g2, g3]
+    · obtain ⟨g1, g2, g3, _, g5, g6, g7, g8, g9⟩ := gatekeeping i hg
+      simp only [hg, Bool.not_false, if_true, List.mem_append, List.mem_cons, List.not_mem_nil, or_false] at hc
+      rcases hc with (rfl | rfl | rfl | rfl | rfl | rfl | rfl) | hc
+      · simp [g1]
+      · simp [g2]
+      · simp [g3]
+      · simp [g5]
+      · simp [g6]
+      · simp [g7, Fmt.all]
+      · simp [g8, Fmt.all]
+      · cases hp : phaseEntered i
+        · simp [hp] at hc
+        · have ht : targetPresent i.vars = false := by
+            have hp' := hp
+            simp only [phaseEntered, Bool.and_eq_true] at hp'
+            obtain ⟨⟨ha, hb⟩, hc'⟩ := hp'
+            simpa [gateOpen, mandatoryPresent, ha, hb, hc'] using hg
+          obtain ⟨e1, e2, e3, _⟩ := target_variable_missing_is_an_error i hp ht
+          simp only [hp, if_true, List.mem_cons, List.not_mem_nil, or_false] at hc
+          rcases hc with rfl | rfl <;> simp [e1, e2, e3]
     · simp only [hg, Bool.not_true, Bool.false_eq_true, if_false] at hc
-      obtain ⟨ok, hdesc, hbp, hos, harch, hdn, hdv, hex⟩ := gateOpen_cases i hg
+      obtain ⟨ok, hdesc, hbp, hct, hex⟩ := gateOpen_cases i hg
       rcases hex with ⟨hexe, hn⟩ | ⟨hexe, hn⟩
       · simp only [hexe, List.mem_append, List.mem_cons, List.not_mem_nil, or_false] at hc
         rcases hc with rfl | hc
@@ -292,7 +325,7 @@ theorem runtime_meets_table [DecidableEq P] [DecidableEq L] [DecidableEq S] [Dec
 
 /-- an invocation with every gate open and no error source; payload types are `Nat` -/
 def sample (exe : Exe) (nargs : Nat) (dbeh : DetectBeh Nat) (bbeh : BuildBeh Nat Nat Nat) : Invocation Nat Nat Nat Nat :=
-  { exe := exe, nargs := nargs, desc := .api 0 10 true, vars := ⟨true, true, true, false, true, true⟩, cwdOk := true,
+  { exe := exe, nargs := nargs, desc := .api 0 10 true, vars := ⟨some (.text "/cnb/bp"), some (.text "windows"), some (.text ""), none, some (.text "ubuntu"), some (.text "24.04")⟩, cwdOk := true,
     plat := .noEnv, planIn := .ok, dbeh := dbeh, bbeh := bbeh, planPre := .file, launchPre := .file, storePre := .valid,
     bPre := fun f => if f = .syft then .dir else .file, lPre := fun _ => .absent }
 
@@ -310,6 +343,14 @@ example : (runtime (sample .build 3 .pass (.ok sampleResult))).bsbom .cdx = .wri
 example : buildError (sample .build 3 .pass (.ok { sampleResult with bsboms := [(.cdx, 1), (.syft, 2)] })) = true := by decide
 example : gateOpen (sample .other 2 .pass .err) = false ∧ gateOpen (sample .detect 3 .pass .err) = false ∧
     gateOpen { sample .build 3 .pass .err with desc := .api 0 9 true } = false ∧
-    gateOpen { sample .build 3 .pass .err with vars := ⟨true, true, true, true, false, true⟩ } = false := by decide
+    gateOpen { sample .build 3 .pass .err with vars := ⟨some (.text "/cnb/bp"), some (.text "windows"), some (.text "amd64"), some (.text "v3"), none, some (.text "")⟩ } = false ∧
+    gateOpen { sample .build 3 .pass .err with vars := ⟨some (.text "/cnb/bp"), some (.raw [255]), some (.text "amd64"), none, some (.text "x"), some (.text "")⟩ } = false := by decide
+/-- the hypotheses of the M3-env theorems are met with CNB_TARGET_OS = `windows` and a distro variable unset -/
+def sampleWindowsNoDistro : Invocation Nat Nat Nat Nat :=
+  { sample .detect 2 (.passPlan 7) .err with vars := ⟨some (.text "/cnb/bp"), some (.text "windows"), some (.text "amd64"), none, none, some (.text "")⟩ }
+example : phaseEntered sampleWindowsNoDistro = true ∧ targetPresent sampleWindowsNoDistro.vars = false ∧
+    mandatoryPresent sampleWindowsNoDistro.vars = false := by decide
+example : (runtime sampleWindowsNoDistro).onError = 1 ∧ (runtime sampleWindowsNoDistro).exit = 1 ∧
+    (runtime sampleWindowsNoDistro).detectRan = false ∧ (runtime sampleWindowsNoDistro).errKind = some .distroName := by decide
 
 end CnbVerif.C05
